@@ -903,7 +903,121 @@ type wCase struct {
 	m2      methodInfo
 }
 
-var groupProbes = []string{"different-email", "group-subset", "group-disjoint", "email-colon-vs-group-colon", "group-name-with-comma"}
+var groupProbes = []string{"different-email", "group-subset", "group-disjoint", "email-colon-vs-group-colon", "group-name-with-comma",
+	"email-equal-ignoring-case", "groups-equal-ignoring-case"}
+
+// tokenProbes relate two long JWT-like tokens (200-900 bytes) that are different strings, hence
+// different subjects. (Group lists that differ only by duplicates ask about the same SET: merging
+// them is allowed and not required, so they are a don't-care and are not generated.)
+var tokenProbes = []string{"long-common-prefix", "long-common-suffix", "one-middle-byte-differs", "equal-ignoring-case",
+	"strict-prefix", "equal-after-trimming-whitespace"}
+
+const b64url = "ABCDEFGHIJKLMNOPQRSTUVWXYZabcdefghijklmnopqrstuvwxyz0123456789-_"
+
+func randB64(r *rand.Rand, n int) string {
+	b := make([]byte, n)
+	for i := range b {
+		b[i] = b64url[r.Intn(len(b64url))]
+	}
+	return string(b)
+}
+
+// jwtLike returns header.payload.signature of 200..900 bytes; the header is the same for every token
+// (as it is for the access tokens one IdP issues).
+func jwtLike(r *rand.Rand, u string) string {
+	const header = "eyJraWQiOiJ2ZXJpZi1rZXktaWQtMDAwMDAwMDAwMDAwMDAwMDAwMDAwMDAwMDAwMDAwIiwiYWxnIjoiUlMyNTYifQ"
+	total := 200 + r.Intn(701)
+	sig := 86
+	if total > 500 {
+		sig = 342
+	}
+	pay := total - len(header) - 2 - sig
+	t := header + "." + randB64(r, pay) + "." + randB64(r, sig)
+	// make the token unique per case without touching its ends
+	mid := len(header) + 1 + pay/2
+	tag := strings.Replace(u, "-", "_", -1)
+	if len(tag) < pay/2 {
+		t = t[:mid] + tag + t[mid+len(tag):]
+	}
+	return t
+}
+
+func swapCase(s string, all bool, r *rand.Rand) string {
+	b := []byte(s)
+	var letters []int
+	for i, c := range b {
+		if (c >= 'a' && c <= 'z') || (c >= 'A' && c <= 'Z') {
+			letters = append(letters, i)
+		}
+	}
+	if len(letters) == 0 {
+		return s + "x"
+	}
+	if !all {
+		letters = []int{letters[r.Intn(len(letters))]}
+	}
+	for _, i := range letters {
+		b[i] ^= 0x20
+	}
+	return string(b)
+}
+
+// relatedTokens returns two different tokens standing in the named relation.
+func relatedTokens(r *rand.Rand, rel, u string) (string, string) {
+	a := jwtLike(r, u)
+	n := len(a)
+	other := func(c byte) byte {
+		for {
+			if d := b64url[r.Intn(len(b64url))]; d != c && d|0x20 != c|0x20 {
+				return d
+			}
+		}
+	}
+	switch rel {
+	case "long-common-prefix": // same length, common prefix >= 64 bytes, everything after differs
+		k := 64 + r.Intn(n-64-40)
+		b := []byte(a)
+		for i := k; i < n; i++ {
+			if b[i] != '.' {
+				b[i] = other(b[i])
+			}
+		}
+		return a, string(b)
+	case "long-common-suffix": // same length, common suffix >= 40 bytes, everything before differs
+		k := 40 + r.Intn(n/2)
+		b := []byte(a)
+		for i := 0; i < n-k; i++ {
+			if b[i] != '.' {
+				b[i] = other(b[i])
+			}
+		}
+		return a, string(b)
+	case "one-middle-byte-differs":
+		b := []byte(a)
+		for {
+			i := 70 + r.Intn(n-70-40)
+			if b[i] != '.' {
+				b[i] = other(b[i])
+				return a, string(b)
+			}
+		}
+	case "equal-ignoring-case":
+		return a, swapCase(a, r.Intn(2) == 0, r)
+	case "strict-prefix":
+		return a, a[:n-1-r.Intn(40)]
+	case "equal-after-trimming-whitespace":
+		ws := []string{" ", "\t", "\n", "\r\n", "  "}
+		w := ws[r.Intn(len(ws))]
+		switch r.Intn(3) {
+		case 0:
+			return a, w + a
+		case 1:
+			return a, a + w
+		}
+		return a, w + a + w
+	}
+	panic("relation " + rel)
+}
 
 var crossPairs = [][3]string{
 	{"proxy", "ValidateSessionState", "RefreshSession"},
@@ -935,6 +1049,9 @@ func wrapperCases(reps int) []wCase {
 			} else {
 				cs = append(cs, wCase{m: m, class: "different-subject", probe: "different-token-all-else-equal"})
 				cs = append(cs, wCase{m: m, class: "different-subject", probe: "different-token-all-else-equal"})
+				for _, p := range tokenProbes {
+					cs = append(cs, wCase{m: m, class: "different-subject", probe: p})
+				}
 			}
 		}
 		for _, p := range crossPairs {
@@ -976,6 +1093,32 @@ func buildSpec(kc wCase, r *rand.Rand, i int) wSpec {
 		case "group-name-with-comma":
 			a.Groups = []string{"p" + u + ",q" + u}
 			b.Groups = []string{"p" + u, "q" + u}
+		case "email-equal-ignoring-case":
+			a.Email = "First.Last" + u + "@Corp.Test"
+			b.Email = []string{strings.ToLower(a.Email), strings.ToUpper(a.Email), swapCase(a.Email, false, r)}[r.Intn(3)]
+		case "groups-equal-ignoring-case":
+			a.Groups = []string{"Eng-" + u, "ops-" + u, "Admins-" + u}
+			b.Groups = append([]string{}, a.Groups...)
+			switch r.Intn(3) {
+			case 0:
+				for i := range b.Groups {
+					b.Groups[i] = strings.ToLower(b.Groups[i])
+				}
+			case 1:
+				for i := range b.Groups {
+					b.Groups[i] = strings.ToUpper(b.Groups[i])
+				}
+			default:
+				j := r.Intn(len(b.Groups))
+				b.Groups[j] = swapCase(b.Groups[j], false, r)
+			}
+		default: // token relations
+			ta, tb := relatedTokens(r, kc.probe, u)
+			if kc.m.subject == "access" {
+				a.Access, b.Access = ta, tb
+			} else {
+				a.Refresh, b.Refresh = ta, tb
+			}
 		}
 		sp.groups = []wGroupSpec{
 			{m: kc.m, arg: a, outcome: kc.m.outcomes[0], followers: r.Intn(3)},
